@@ -107,7 +107,8 @@ const REF_NAMES: [&str; 15] = ["@r", "@s", "@t", "@obj", "@item", "@n1", "@ref-a
 const PROP_NAMES: [&str; 14] = [
     "id", "name", "n", "next", "items", "a", "b", "true", "null", "123", "x-y", "$v", "@at", "self",
 ];
-const SEGS: [&str; 10] = ["a", "b", "items", "v1", "x.y", "A", "a-b", "%20", "~u", "_"];
+// `%7Bid%7D` is a literal segment that spells braces: it must never turn into a path variable
+const SEGS: [&str; 13] = ["a", "b", "items", "v1", "x.y", "A", "a-b", "%20", "~u", "_", "%7Bid%7D", "%7Bb%7D", "%41"];
 const MEDIA: [&str; 5] = [
     "application/json",
     "application/xml",
@@ -284,7 +285,7 @@ impl<'r> Gen<'r> {
                     let taken = |s: &str| reserved.iter().any(|r| r == s) || plans.iter().any(|p| p.name == s);
                     self.fresh_name(&taken)
                 };
-                let mut params = Vec::new();
+                let mut params: Vec<(String, Ty)> = Vec::new();
                 if is_fun {
                     // Half of the functions take their parameter names from one shared sequence, so that a
                     // caller's parameter and a callee's parameter of the same name meet often.
@@ -292,7 +293,10 @@ impl<'r> Gen<'r> {
                     let np = self.rng.range(self.cfg.min_params.clamp(1, 3), 3);
                     for i in 0..np {
                         let pty = self.pick_param_ty();
-                        let pn = if shared {
+                        let pn = if i > 0 && self.rng.chance(1, 12) {
+                            // a repeated parameter name: the last one is the binder of the name
+                            params[self.rng.below(i)].0.clone()
+                        } else if shared {
                             ["x", "y", "v"][i].to_owned()
                         } else {
                             let taken = |s: &str| params.iter().any(|(n, _): &(String, Ty)| n == s);
@@ -398,7 +402,8 @@ impl<'r> Gen<'r> {
         }
         if let Some(d) = sc.decl {
             for (n, t, i) in sc.params.iter() {
-                if !seen.contains(&n.as_str()) && t == ty {
+                let shadowed = sc.params.iter().any(|(n2, _, j)| n2 == n && j > i);
+                if !seen.contains(&n.as_str()) && t == ty && !shadowed {
                     out.push(E::var(n, Target::Param(d, *i)));
                 }
             }
@@ -448,7 +453,8 @@ impl<'r> Gen<'r> {
         if let Some(d) = sc.decl {
             for (n, t, i) in sc.params.iter() {
                 if let Ty::Fun(ps, r) = t {
-                    if **r == *ty && !sc.recs.iter().any(|(rn, _, _)| rn == n) {
+                    let shadowed = sc.params.iter().any(|(n2, _, j)| n2 == n && j > i);
+                    if **r == *ty && !sc.recs.iter().any(|(rn, _, _)| rn == n) && !shadowed {
                         out.push((E::var(n, Target::Param(d, *i)), ps.clone()));
                     }
                 }
